@@ -3,7 +3,7 @@ CONSTANTS
   MaxItems = 2
   Mts = {"ts", "tsx", "js", "jsx", "mjs", "dts"}
   HeaderSet = {"none", "refPath", "refTypes", "refTypesMode", "selfTypes", "jsxSource", "jsxSourceTypes", "shebangRefTypes", "refBoth"}
-  ItemSet = {"imp", "impDefault", "impNs", "side", "impJson", "impType", "impInlineType", "expNamed", "expStar", "expStarAs", "expType", "expTypeStar", "impEq", "expImpEq", "typeImportExpr", "typeofImport", "declMod", "dyn", "dynTpl", "dynTplParts", "dynExpr", "dynJson", "dynUnknownAttr", "req", "notReq", "metaResolve", "tsTypesImp", "denoTypesImp", "tsTypesNotLast", "tsTypesExport", "jsdocType", "jsdocImportTag", "inert"}
+  ItemSet = {"imp", "impDefault", "impNs", "side", "impJson", "impType", "impInlineType", "expNamed", "expStar", "expStarAs", "expType", "expTypeStar", "impEq", "expImpEq", "typeImportExpr", "typeofImport", "declMod", "dyn", "dynTpl", "dynTplParts", "dynExpr", "dynJson", "dynUnknownAttr", "req", "notReq", "metaResolve", "tsTypesImp", "denoTypesImp", "tsTypesNotLast", "tsTypesExport", "jsdocType", "jsdocImportTag", "inert", "impDefer", "impSource", "dynDefer", "dynSource", "reqTpl"}
 INVARIANT ExactlyOnce
 INVARIANT EmitInv
 CHECK_DEADLOCK FALSE
